@@ -17,7 +17,7 @@ use read_fonts::{FontRef, TableProvider};
 use skrifa::color::{
     Brush, ColorGlyphFormat, ColorPainter, CompositeMode, PaintCachedColorGlyph, PaintError, Transform,
 };
-use skrifa::prelude::LocationRef;
+use skrifa::prelude::{LocationRef, Size};
 use skrifa::MetadataProvider;
 use std::collections::{BTreeMap, BTreeSet, HashMap};
 use std::io::{BufRead, BufReader, Write};
@@ -73,6 +73,43 @@ impl Inner {
     }
 }
 
+/// exact integer rendering of an `f32` that holds an integer (font units, raw F2Dot14 bits); anything
+/// else is printed as its bit pattern (never equal to a model value: a visible disagreement)
+fn fx(v: f32) -> String {
+    if v.fract() == 0.0 && v.abs() < 1.0e9 {
+        format!("{}", v as i64)
+    } else {
+        format!("x{:08x}", v.to_bits())
+    }
+}
+
+/// `[0, palette, alpha·2^14]` / `[kind, extend, #stops]` — the model's `Brush`
+fn brush_tok(b: &Brush<'_>) -> String {
+    match b {
+        Brush::Solid { palette_index, alpha } => format!("0:{}:{}", palette_index, fx(*alpha * 16384.0)),
+        Brush::LinearGradient { color_stops, extend, .. } => format!("1:{}:{}", *extend as u8, color_stops.len()),
+        Brush::RadialGradient { color_stops, extend, .. } => format!("2:{}:{}", *extend as u8, color_stops.len()),
+        Brush::SweepGradient { color_stops, extend, .. } => format!("3:{}:{}", *extend as u8, color_stops.len()),
+    }
+}
+
+fn box_tok(b: &BoundingBox<f32>) -> String {
+    format!("B:{}:{}:{}:{}", fx(b.x_min), fx(b.y_min), fx(b.x_max), fx(b.y_max))
+}
+
+/// the stream without clip-box / brush payloads (what the decompiled-instance path models)
+fn strip_payloads(resp: &str) -> String {
+    resp.split(' ')
+        .map(|t| match t.chars().next() {
+            Some('B') => "B".to_string(),
+            Some('F') => "F".to_string(),
+            Some('g') => t.split(':').take(2).collect::<Vec<_>>().join(":"),
+            _ => t.to_string(),
+        })
+        .collect::<Vec<_>>()
+        .join(" ")
+}
+
 macro_rules! common_methods {
     () => {
         fn push_transform(&mut self, _t: Transform) {
@@ -84,14 +121,14 @@ macro_rules! common_methods {
         fn push_clip_glyph(&mut self, g: GlyphId) {
             self.0.ev(&format!("G{}", g.to_u32()))
         }
-        fn push_clip_box(&mut self, _b: BoundingBox<f32>) {
-            self.0.ev("B")
+        fn push_clip_box(&mut self, b: BoundingBox<f32>) {
+            self.0.ev(&box_tok(&b))
         }
         fn pop_clip(&mut self) {
             self.0.ev("c")
         }
-        fn fill(&mut self, _b: Brush<'_>) {
-            self.0.ev("F")
+        fn fill(&mut self, b: Brush<'_>) {
+            self.0.ev(&format!("F:{}", brush_tok(&b)))
         }
         fn push_layer(&mut self, m: CompositeMode) {
             self.0.ev(&format!("L{}", m as u8))
@@ -112,8 +149,8 @@ macro_rules! common_methods {
 struct RecFg(Inner);
 impl ColorPainter for RecFg {
     common_methods!();
-    fn fill_glyph(&mut self, g: GlyphId, bt: Option<Transform>, _b: Brush<'_>) {
-        self.0.ev(&format!("g{}:{}", g.to_u32(), bt.is_some() as u8))
+    fn fill_glyph(&mut self, g: GlyphId, bt: Option<Transform>, b: Brush<'_>) {
+        self.0.ev(&format!("g{}:{}:{}", g.to_u32(), bt.is_some() as u8, brush_tok(&b)))
     }
 }
 
@@ -850,12 +887,135 @@ impl Gen<'_> {
     }
 }
 
+/// clip boxes: ordinary, empty (zero area), inverted, extreme values; static and variable (at the default
+/// location the deltas of a ClipBoxFormat2 are zero)
 fn clip_box(rng: &mut Rng) -> wc::ClipBox {
+    let vals: [i16; 9] = [0, 100, -100, 1, -1, 32767, -32768, 500, 250];
+    let (x0, y0, x1, y1) = match rng.below(4) {
+        0 => (0, 0, 100, 100),
+        1 => {
+            let v = *rng.pick(&vals);
+            (v, v, v, v)
+        }
+        _ => (*rng.pick(&vals), *rng.pick(&vals), *rng.pick(&vals), *rng.pick(&vals)),
+    };
     if rng.chance(1, 2) {
-        wc::ClipBox::format_1(FWord::new(0), FWord::new(0), FWord::new(100), FWord::new(100))
+        wc::ClipBox::format_1(FWord::new(x0), FWord::new(y0), FWord::new(x1), FWord::new(y1))
     } else {
-        wc::ClipBox::format_2(FWord::new(0), FWord::new(0), FWord::new(100), FWord::new(100), 0)
+        wc::ClipBox::format_2(FWord::new(x0), FWord::new(y0), FWord::new(x1), FWord::new(y1), *rng.pick(&[0u32, 1, 0xFFFF_FFFF, 0xFFFF_FFFE]))
     }
+}
+
+/// a one-glyph COLR table written byte by byte: glyph 1 = one gradient paint of format 4..=9 with an
+/// arbitrary extend byte (write-fonts cannot emit `Extend::Unknown`) and arbitrary stops
+fn raw_gradient_table(fmt: u8, coords: &[i16], ext: u8, stops: &[(i16, u16, i16)]) -> Vec<u8> {
+    let var = fmt % 2 == 1;
+    let mut t: Vec<u8> = vec![0, 1, 0, 0, 0, 0, 0, 0, 0, 0, 0, 0, 0, 0];
+    t.extend([0, 0, 0, 34]);
+    t.extend([0u8; 16]);
+    t.extend([0, 0, 0, 1, 0, 1, 0, 0, 0, 10]); // base glyph list @34: gid 1 -> paint @44
+    let psize: u32 = match fmt {
+        4 => 16,
+        5 => 20,
+        6 => 16,
+        7 => 20,
+        8 => 12,
+        _ => 16,
+    };
+    t.push(fmt);
+    t.extend(&psize.to_be_bytes()[1..]);
+    for c in coords {
+        t.extend(c.to_be_bytes());
+    }
+    if var {
+        t.extend(0xFFFF_FFFFu32.to_be_bytes());
+    }
+    assert_eq!(t.len() as u32, 44 + psize);
+    t.push(ext);
+    t.extend((stops.len() as u16).to_be_bytes());
+    for (o, p, a) in stops {
+        t.extend(o.to_be_bytes());
+        t.extend(p.to_be_bytes());
+        t.extend(a.to_be_bytes());
+        if var {
+            t.extend(0xFFFF_FFFFu32.to_be_bytes());
+        }
+    }
+    t
+}
+
+/// directed gradient family: every format x extend (incl. unknown bytes) x stop pattern x geometry
+fn gen_gradients(rng: &mut Rng, thorough: bool, cases: &mut Vec<Case>) {
+    let stop_patterns: Vec<Vec<(i16, u16, i16)>> = vec![
+        vec![],
+        vec![(0, 1, 16384)],
+        vec![(8192, 2, 8192), (8192, 3, 16384)],
+        vec![(8192, 2, 8192), (8192, 3, 16384), (8192, 4, 100)],
+        vec![(0, 1, 16384), (16384, 2, 16384)],
+        vec![(16384, 5, 16384), (0, 6, 4096), (0, 7, 8192)],
+        vec![(-8192, 1, 16384), (24576, 2, 0)],
+        vec![(1, 8, 16384), (0, 9, 16384)],
+        vec![(-32768, 1, 1), (32767, 2, 2), (0, 3, 3)],
+    ];
+    let linear_geoms: Vec<[i16; 6]> = vec![
+        [0, 0, 100, 0, 0, 100],
+        [5, 5, 5, 5, 0, 100],       // p1 == p0
+        [5, 5, 100, 0, 5, 5],       // p2 == p0
+        [0, 0, 10, 10, 20, 20],     // parallel
+        [0, 0, 10, 10, -20, -20],   // anti-parallel
+        [-15000, -15000, 15001, 15000, 15000, 14999], // cross != 0 exactly, == 0 after f32 rounding of the products
+        [-15000, -15000, 15001, 15000, 15000, 15064], // products differ by more than an ulp
+        [-32768, -32768, 32767, 32767, 32767, 32766],
+        [0, 0, 1, 0, 0, 1],
+    ];
+    let radial_geoms: Vec<[i16; 6]> = vec![[0, 0, 10, 50, 50, 100], [7, 7, 0, 7, 7, 0]];
+    let sweep_geoms: Vec<[i16; 4]> = vec![
+        [0, 0, 0, 16384],
+        [0, 0, 0, 0],
+        [0, 0, 8192, 8192],
+        [0, 0, 16384, 0],
+        [0, 0, 0, 1],
+        [0, 0, -16384, 16384],
+        [0, 0, 32767, -32768],
+        [0, 0, 5461, 5462],
+    ];
+    let exts: [u8; 6] = [0, 1, 2, 3, 7, 255];
+    let mut n = 0;
+    for fmt in 4u8..=9 {
+        for ext in exts {
+            for st in &stop_patterns {
+                let geoms: Vec<Vec<i16>> = match fmt {
+                    4 | 5 => linear_geoms.iter().map(|g| g.to_vec()).collect(),
+                    6 | 7 => radial_geoms.iter().map(|g| g.to_vec()).collect(),
+                    _ => sweep_geoms.iter().map(|g| g.to_vec()).collect(),
+                };
+                for g in geoms {
+                    let colr = raw_gradient_table(fmt, &g, ext, st);
+                    cases.push(Case { family: "gradient", label: format!("fmt={fmt} ext={ext} stops={st:?} geom={g:?}"), colr, gids: vec![1] });
+                    n += 1;
+                }
+            }
+        }
+    }
+    // random ones
+    for i in 0..(if thorough { 20000 } else { 1500 }) {
+        let fmt = 4 + rng.below(6) as u8;
+        let ext = *rng.pick(&[0u8, 0, 1, 2, 3, 9]);
+        let ns = rng.below(5) as usize;
+        let same = rng.chance(1, 3);
+        let base = rng.range(-32768, 32767) as i16;
+        let st: Vec<(i16, u16, i16)> = (0..ns)
+            .map(|_| (if same { base } else { rng.range(-32768, 32767) as i16 }, rng.below(5) as u16, rng.range(0, 16384) as i16))
+            .collect();
+        let k = if fmt >= 8 { 4 } else { 6 };
+        let small = rng.chance(1, 2);
+        let g: Vec<i16> = (0..k)
+            .map(|_| if small { rng.range(-3, 3) as i16 } else { rng.range(-32768, 32767) as i16 })
+            .collect();
+        let colr = raw_gradient_table(fmt, &g, ext, &st);
+        cases.push(Case { family: "gradient", label: format!("random i={i} fmt={fmt} ext={ext} stops={st:?} geom={g:?}"), colr, gids: vec![1] });
+    }
+    let _ = n;
 }
 
 /// roots: (gid, paint) sorted by gid; clips: gids that get a clip box
@@ -1200,8 +1360,26 @@ fn run_v0(rng: &mut Rng, n: usize, s: &mut Session, cap: Duration) {
         let (i, g, fg, first, num, tbl, range_ok, nl, colr_hex) = m;
         let input = || format!("family=v0 i={i} gid={g} fg={fg} first={first} num={num} layers={nl} colr={colr_hex}");
         s.oracle("v0-base-glyph-range-as-written", *range_ok, input, || "v0_base_glyph range differs from the record".into());
-        s.case("v0", format!("v0 {fg} {first} {num} {} {}", tbl.len(), tbl.join(" ")), r.clone());
+        s.case("v0", format!("v0 {fg} {first} {num} {} {}", tbl.len(), tbl.join(" ")), strip_payloads(r));
         s.case("bytes:v0", format!("v0.bytes {colr_hex} {fg} {g}"), r.clone());
+        if *fg == 0 {
+            let f = font_of(&unhex(colr_hex));
+            let bb = catch(|| {
+                FontRef::new(&f).ok().and_then(|fr| {
+                    fr.color_glyphs()
+                        .get_with_format(GlyphId::new(*g as u32), ColorGlyphFormat::ColrV0)
+                        .map(|gl| gl.bounding_box(LocationRef::default(), Size::unscaled()))
+                })
+            });
+            let bb_resp = match &bb {
+                Ok(None) => "noglyph".to_string(),
+                Ok(Some(None)) => "none".to_string(),
+                Ok(Some(Some(b))) => box_tok(b),
+                Err(m) => format!("panic:{}", m.replace([' ', '\n'], "_")),
+            };
+            s.oracle("v0-bounding_box-is-none-and-does-not-panic", bb_resp == "none" || bb_resp == "noglyph", input, || bb_resp.clone());
+            s.case("bytes:bbox", format!("bbox.bytes {colr_hex} {g} 1"), bb_resp);
+        }
         judge_common(s, r, &input);
         s.count(&format!("v0:result:{}", r.split(' ').next().unwrap_or("")));
         let oob = *num > 0 && *first as usize + *num as usize > *nl;
@@ -1243,6 +1421,7 @@ fn run(cfg: &Config, s: &mut Session) {
     gen_small_trees(if thorough { 6 } else { 5 }, &mut rng, &mut cases);
     gen_chains(&mut rng, thorough, &mut cases);
     gen_cycles(&mut rng, &mut cases);
+    gen_gradients(&mut rng, thorough, &mut cases);
     gen_random(&mut rng, if thorough { 60000 } else { 5000 }, &mut cases);
     let mut mutated = vec![];
     gen_mutations(&mut rng, &cases, if thorough { 60000 } else { 5000 }, &mut mutated);
@@ -1325,6 +1504,25 @@ fn run(cfg: &Config, s: &mut Session) {
                     continue;
                 }
             };
+            // `ColorGlyph::bounding_box` (no traversal: evaluated in this process) against the byte-level model
+            let bb = catch(|| {
+                fr.color_glyphs()
+                    .get_with_format(GlyphId::new(gid), ColorGlyphFormat::ColrV1)
+                    .map(|g| g.bounding_box(LocationRef::default(), Size::unscaled()))
+            });
+            let bb_resp = match &bb {
+                Ok(None) => "noglyph".to_string(),
+                Ok(Some(None)) => "none".to_string(),
+                Ok(Some(Some(b))) => box_tok(b),
+                Err(m) => format!("panic:{}", m.replace([' ', '\n'], "_")),
+            };
+            if family != "test-font" || gid % 9 == 0 {
+                s.case("bytes:bbox", format!("bbox.bytes {} {} 0", colr_bytes[ci], gid), bb_resp.clone());
+            }
+            {
+                let l = &labels[ci];
+                s.oracle("bounding_box-does-not-panic", bb.is_ok(), || format!("family={} {} gid={gid} colr={}", l.0, l.1, l.2), || bb_resp.clone());
+            }
             let root = inst.bases.get(&gid).copied().flatten();
             let (cyclic, longest) = match root {
                 Some(r) => inst.analyse(r),
@@ -1360,11 +1558,12 @@ fn run(cfg: &Config, s: &mut Session) {
                 "cycle-colrglyph" => "paint:cycle-colrglyph",
                 "cycle-layers" => "paint:cycle-layers",
                 "random" => "paint:random",
+                "gradient" => "paint:gradient",
                 "mutated" => "paint:mutated",
                 _ => "paint:test-font",
             },
             format!("paint {} {} {} {}", m.fg, m.cm, m.gid, m.req_tail),
-            r.clone(),
+            strip_payloads(r),
         );
         // byte-level model: the whole paint evaluated by Lean from the COLR table bytes alone (no
         // harness-side decompilation).  The big test-font tables are sampled (list-backed byte reads).
@@ -1378,6 +1577,7 @@ fn run(cfg: &Config, s: &mut Session) {
                     "cycle-colrglyph" => "bytes:cycle-colrglyph",
                     "cycle-layers" => "bytes:cycle-layers",
                     "random" => "bytes:random",
+                    "gradient" => "bytes:gradient",
                     "mutated" => "bytes:mutated",
                     _ => "bytes:test-font",
                 },
@@ -1411,6 +1611,15 @@ fn run(cfg: &Config, s: &mut Session) {
             if m.longest >= TOO_DEEP_EDGES && m.cm == 0 && painted {
                 s.oracle("too-deep-graph-is-reported-as-error", head.starts_with("err:"), input, || r.chars().take(200).collect());
             }
+        }
+        if *family == "gradient" && m.fg == 1 {
+            // which way the gradient arm went, as seen on the real stream
+            let ev = r.split(' ').nth(1).unwrap_or("-");
+            let fmt = label.split("fmt=").nth(1).and_then(|x| x.split(' ').next()).unwrap_or("?");
+            let ext = label.split("ext=").nth(1).and_then(|x| x.split(' ').next()).unwrap_or("?");
+            let kind = if ev == "-" { "no-fill".to_string() } else { format!("fill-kind-{}", ev.split(':').nth(1).unwrap_or("?")) };
+            s.count(&format!("gradient:fmt={fmt}:ext={}:{kind}", if ext.parse::<u32>().unwrap_or(9) > 2 { "unknown" } else { ext }));
+            // seed C20-7's condition: Unknown extend and zero stop range must not reach fill
         }
         if head == "ok" {
             let n_ev = r.split(' ').count() - 1;
@@ -1457,7 +1666,7 @@ fn run_blowup(rng: &mut Rng, s: &mut Session, thorough: bool) {
         if let Ok(fr) = FontRef::new(&font_of(&colr)) {
             if let Ok(c) = fr.colr() {
                 let inst = extract(&c, &[1]);
-                s.case("paint:glyphchain", format!("paint 1 0 1 {}", inst.request_tail()), r[0].clone());
+                s.case("paint:glyphchain", format!("paint 1 0 1 {}", inst.request_tail()), strip_payloads(&r[0]));
                 if d <= 16 {
                     s.case("bytes:glyphchain", format!("paint.bytes {} 1 0 1", hex(&colr)), r[0].clone());
                     s.case("bytes:glyphchain", format!("visits.bytes {} 1 0 1", hex(&colr)), (3u64 * (1u64 << (d - 1)) - 1).to_string());
